@@ -48,7 +48,8 @@ func main() {
 			"where the library's own RGSW encryption is malformed (no auxiliary modulus: finding C20/rgsw/Encrypt/row-noise/levelP=-1) evaluators are judged on textbook RGSW ciphertexts built by the harness; the malformed encryption is judged in rgswenc/ and brkeys/",
 			"coefficient-domain RLWE inputs: the documentation is silent on the domain of the result, both readings are accepted",
 			"blind rotation: inputs x are encoded as k·Q_LWE/2N_BR for grid index k (|k| ≤ N_BR/2 ↔ [a,b]); at the upper end point b both f(b) and the negacyclic value −f(a) are accepted; " +
-				"the drift window is 1/2 + 3h/2 grid steps (rounding of b, rounding and odd-forcing of the h mask coefficients that meet a non-zero secret coefficient) plus one discretisation step",
+				"the drift window is 1/2 + 3h/2 grid steps (rounding of b, rounding and odd-forcing of the h mask coefficients that meet a non-zero secret coefficient) plus one discretisation step; " +
+				"within that window of a or b the negacyclic continuation of the look-up is accepted (InitTestPolynomial: the interval should take the drift into account)",
 			"the algorithm's window is w=10: the expected Galois key set is {5^1..5^10, −5}",
 		},
 		Scenarios:      scenarios,
